@@ -369,18 +369,29 @@ func mcLattice(r *ev.Run, n [3]int, stride uint64) {
 	placements := []struct {
 		o c3
 		d float64
-	}{{model3d.XYZ(0, 0, 0), 1}, {model3d.XYZ(0.1, -0.7, 2.3), 0.3}}
+	}{{model3d.XYZ(0, 0, 0), 1}, {model3d.XYZ(0.1, -0.7, 2.3), 0.3},
+		// very small and very large spacings: the search must still halve the bracket `iters` times
+		{model3d.XYZ(0, 0, 0), 1.0 / (1 << 22)}, {model3d.XYZ(0, 0, 0), 1 << 12}}
 	ev.Parallel(16, 16, func(w int) {
 		for bits := uint64(w); bits < total; bits += 16 {
 			if stride > 1 && (bits*2654435761>>7)%stride != 0 {
 				continue
 			}
 			for pi, pl := range placements {
+				if pi >= 2 && (bits*40503>>3)%8 != 0 {
+					continue // the scaled placements on every 8th assignment
+				}
 				for kind := 0; kind < 4; kind++ {
 					if pi == 1 && kind == 0 {
 						continue // voxel transitions at exact midpoints are only exact on the dyadic placement
 					}
-					for _, iters := range []int{0, 1, 2, 5} {
+					itersList := []int{0, 1, 2, 5}
+					if (bits*40503>>3)%8 == 1 {
+						itersList = []int{12, 30} // many search steps: bracket far below any absolute threshold
+					} else if pi >= 2 {
+						itersList = []int{0, 2, 12}
+					}
+					for _, iters := range itersList {
 						s := &offSolid{lat.NewSolid3(pl.o, pl.d, n, bits), kind}
 						c := gcase{Algo: "MarchingCubes", Solid: fmt.Sprintf("lattice %v bits %#x kind %d origin %v delta %g", n, bits, kind, pl.o, pl.d), N: n[:], Bits: bits, Kind: kind, Origin: []float64{pl.o.X, pl.o.Y, pl.o.Z}, Delta: pl.d, Iters: iters, Opts: fmt.Sprintf("iters=%d", iters)}
 						checkMC(r, c, s, pl.d, iters, iters == 2, iters == 0 || iters == 2, 0)
@@ -521,12 +532,18 @@ func msLattice(r *ev.Run, n [2]int) {
 			for pi, pl := range []struct {
 				o model2d.Coord
 				d float64
-			}{{model2d.XY(0, 0), 1}, {model2d.XY(0.1, -0.7), 0.3}} {
+			}{{model2d.XY(0, 0), 1}, {model2d.XY(0.1, -0.7), 0.3}, {model2d.XY(0, 0), 1.0 / (1 << 22)}, {model2d.XY(0, 0), 1 << 12}} {
 				for kind := 0; kind < 4; kind++ {
 					if pi == 1 && kind == 0 {
 						continue
 					}
-					for _, iters := range []int{0, 1, 2, 5} {
+					itersList := []int{0, 1, 2, 5}
+					if pi >= 2 {
+						itersList = []int{0, 2, 12} // very small and very large spacings
+					} else if bits%4 == 1 {
+						itersList = []int{12, 30} // many search steps
+					}
+					for _, iters := range itersList {
 						s := &offSolid2{lat.NewSolid2(pl.o, pl.d, n, bits), kind}
 						c := gcase{Algo: "MarchingSquares", Solid: fmt.Sprintf("2D lattice %v bits %#x kind %d origin %v delta %g", n, bits, kind, pl.o, pl.d), N: n[:], Bits: bits, Kind: kind, Origin: []float64{pl.o.X, pl.o.Y}, Delta: pl.d, Iters: iters, Opts: fmt.Sprintf("iters=%d", iters)}
 						checkMS(r, c, s, pl.d, iters)
